@@ -23,7 +23,6 @@ import (
 	"io"
 	"net"
 	"sync"
-	"sync/atomic"
 
 	apicommon "github.com/enfein/mieru/v3/apis/common"
 	"github.com/enfein/mieru/v3/apis/model"
@@ -34,8 +33,30 @@ import (
 
 // RunUDPAssociateLoop exchanges socks5 UDP packets between a socks5 proxy client and a mieru proxy server,
 // the proxy server is connected via the PacketOverStreamTunnel.
+// firstError keeps the first error reported by the goroutines of a relay loop.
+// An atomic.Value cannot be used for this: it panics when two goroutines store
+// errors of different concrete types.
+type firstError struct {
+	mu  sync.Mutex
+	err error
+}
+
+func (f *firstError) set(err error, overwrite bool) {
+	f.mu.Lock()
+	defer f.mu.Unlock()
+	if overwrite || f.err == nil {
+		f.err = err
+	}
+}
+
+func (f *firstError) get() error {
+	f.mu.Lock()
+	defer f.mu.Unlock()
+	return f.err
+}
+
 func RunUDPAssociateLoop(udpConn *net.UDPConn, conn *apicommon.PacketOverStreamTunnel, resolver apicommon.DNSResolver) error {
-	var udpErr atomic.Value
+	var udpErr firstError
 
 	// addrMap maps the UDPAddr in string to the bytes in UDP associate header.
 	var addrMap sync.Map
@@ -53,13 +74,13 @@ func RunUDPAssociateLoop(udpConn *net.UDPConn, conn *apicommon.PacketOverStreamT
 		for {
 			n, err = conn.Read(buf)
 			if err != nil {
-				udpErr.Store(err)
+				udpErr.set(err, true)
 				return
 			}
 
 			datagram, err := parseSocks5UDPDatagram(buf[:n])
 			if err != nil {
-				udpErr.Store(err)
+				udpErr.set(err, true)
 				UDPAssociateErrors.Add(1)
 				return
 			}
@@ -96,9 +117,7 @@ func RunUDPAssociateLoop(udpConn *net.UDPConn, conn *apicommon.PacketOverStreamT
 				if !stderror.IsEOF(err) && !stderror.IsClosed(err) {
 					log.Debugf("UDP associate %v Read() failed: %v", udpConn.LocalAddr(), err)
 				}
-				if udpErr.Load() == nil {
-					udpErr.Store(err)
-				}
+				udpErr.set(err, false)
 				return
 			}
 			var header []byte
@@ -112,9 +131,7 @@ func RunUDPAssociateLoop(udpConn *net.UDPConn, conn *apicommon.PacketOverStreamT
 			_, err = conn.Write(append(append([]byte(nil), header...), buf[:n]...))
 			if err != nil {
 				log.Debugf("UDP associate %v Write() to proxy client failed: %v", udpConn.LocalAddr(), err)
-				if udpErr.Load() == nil {
-					udpErr.Store(err)
-				}
+				udpErr.set(err, false)
 				return
 			}
 			UDPAssociateDownloadPackets.Add(1)
@@ -123,13 +140,13 @@ func RunUDPAssociateLoop(udpConn *net.UDPConn, conn *apicommon.PacketOverStreamT
 	}()
 
 	wg.Wait()
-	return udpErr.Load().(error)
+	return udpErr.get()
 }
 
 // RunUDPForwardingLoop exchanges socks5 UDP packets between a mieru proxy client and a socks5 proxy server,
 // the proxy client is connected via the PacketOverStreamTunnel.
 func RunUDPForwardingLoop(udpConn *net.UDPConn, conn *apicommon.PacketOverStreamTunnel, downstreamAddr *net.UDPAddr, ctrlConn net.Conn) error {
-	var udpErr atomic.Value
+	var udpErr firstError
 
 	var wg sync.WaitGroup
 	wg.Add(3)
@@ -140,9 +157,7 @@ func RunUDPForwardingLoop(udpConn *net.UDPConn, conn *apicommon.PacketOverStream
 		buf := make([]byte, 1)
 		_, err := ctrlConn.Read(buf)
 		if err != nil {
-			if udpErr.Load() == nil {
-				udpErr.Store(err)
-			}
+			udpErr.set(err, false)
 		}
 		udpConn.Close()
 		conn.Close()
@@ -156,9 +171,7 @@ func RunUDPForwardingLoop(udpConn *net.UDPConn, conn *apicommon.PacketOverStream
 		for {
 			n, err := conn.Read(buf)
 			if err != nil {
-				if udpErr.Load() == nil {
-					udpErr.Store(err)
-				}
+				udpErr.set(err, false)
 				return
 			}
 			ws, err := udpConn.WriteToUDP(buf[:n], downstreamAddr)
@@ -182,17 +195,13 @@ func RunUDPForwardingLoop(udpConn *net.UDPConn, conn *apicommon.PacketOverStream
 				if !stderror.IsEOF(err) && !stderror.IsClosed(err) {
 					log.Debugf("UDP forwarding %v ReadFromUDP() failed: %v", udpConn.LocalAddr(), err)
 				}
-				if udpErr.Load() == nil {
-					udpErr.Store(err)
-				}
+				udpErr.set(err, false)
 				return
 			}
 			_, err = conn.Write(buf[:n])
 			if err != nil {
 				log.Debugf("UDP forwarding %v Write() to client failed: %v", udpConn.LocalAddr(), err)
-				if udpErr.Load() == nil {
-					udpErr.Store(err)
-				}
+				udpErr.set(err, false)
 				return
 			}
 			UDPAssociateDownloadPackets.Add(1)
@@ -202,10 +211,7 @@ func RunUDPForwardingLoop(udpConn *net.UDPConn, conn *apicommon.PacketOverStream
 
 	wg.Wait()
 	ctrlConn.Close()
-	if err := udpErr.Load(); err != nil {
-		return err.(error)
-	}
-	return nil
+	return udpErr.get()
 }
 
 // runUDPAssociateDatagramLoop exchanges RFC 1928 SOCKS5 UDP datagrams between
